@@ -29,6 +29,10 @@
 #include "ola/io/SelectServer.h"
 #undef private
 #include "ola/thread/ThreadPool.h"
+#include "ola/base/Flags.h"
+#include "olad/plugin_api/Preferences.h"
+#include <sys/stat.h>
+DECLARE_bool(use_epoll);
 #include "ola/Logging.h"
 #include "ola/thread/ExecutorThread.h"
 #include "ola/thread/Future.h"
@@ -439,6 +443,61 @@ static void scen_futcopy(int g) {
   for (int i = 0; i < 1 + g; i++) pthread_join(tids[i], NULL);
 }
 
+// ---- MutexLocker with an early Release()
+static ola::thread::Mutex *lk_x = NULL;
+static void *lk_contender(void *) {
+  { ola::thread::MutexLocker l(lk_x); }
+  { ola::thread::MutexLocker l(lk_x); }
+  return NULL;
+}
+static void scen_locker() {
+  ola::thread::Mutex mx, my;
+  lk_x = &mx;
+  pthread_t t1, t2;
+  pthread_create(&t1, NULL, lk_contender, NULL);
+  pthread_create(&t2, NULL, lk_contender, NULL);
+  {
+    ola::thread::MutexLocker l(&mx);
+    l.Release();
+    { ola::thread::MutexLocker k(&my); }
+  }  // ~MutexLocker of a released locker: must not touch the mutex again
+  pthread_join(t1, NULL);
+  pthread_join(t2, NULL);
+}
+
+// ---- the preference saver hand-off: real FileBackedPreferences + FilePreferenceSaverThread
+static void scen_prefs() {
+  char dir[64];
+  snprintf(dir, sizeof(dir), "/tmp/C17_prefs_%d", static_cast<int>(getpid()));
+  mkdir(dir, 0700);
+  std::string file = std::string(dir) + "/ola-c17.conf";
+  {
+    ola::thread::Mutex own;          // ownership token of the owner-only preference map
+    own.Lock();
+    {
+      ola::FilePreferenceSaverThread saver;
+      ola::FileBackedPreferences prefs(dir, "c17", &saver);
+      saver.Start();
+      prefs.SetValue("k", "2");
+      prefs.Save();
+      prefs.SetValue("k", "3");
+      saver.Synchronize();
+      int v = -1;
+      std::ifstream in(file.c_str());
+      std::string line;
+      while (std::getline(in, line)) {
+        size_t p = line.find("k = ");
+        if (p != std::string::npos) v = atoi(line.c_str() + p + 4);
+      }
+      out(3, v);
+      saver.Join();
+    }
+    own.Unlock();
+  }
+  unlink(file.c_str());
+  rmdir(dir);
+}
+
 // ---- ThreadPool with two workers
 static void scen_pool(int n) {
   ola::thread::ThreadPool pool(2);
@@ -488,9 +547,15 @@ static void scen_execre(const std::vector<int> &lims, const std::vector<int> &rs
 
 // ---- the event loop's executor: a real SelectServer, driven by RunOnce() with a zero timeout
 static int ss_children = 0;
+static bool ss_drainer = false;
 static void ss_cb(ola::io::SelectServer *ss, int producer, int seq, int resubmit) {
   record(producer, seq);
-  if (resubmit) {
+  if (ss_drainer && producer == 1 && seq == 0) {
+    // queue a callback, then drain: the pattern ExecutorInterface.h recommends for destructors
+    int k = ss_children++;
+    ss->Execute(ola::NewSingleCallback(record, sch::self->id, k));
+    ss->DrainCallbacks();
+  } else if (resubmit) {
     int k = ss_children++;
     ss->Execute(ola::NewSingleCallback(record, sch::self->id, k));
   }
@@ -540,6 +605,9 @@ static void child(const std::vector<std::string> &a) {
   else if (a[0] == "futcopy") scen_futcopy(atoi(a[1].c_str()));
   else if (a[0] == "periodic") scen_periodic();
   else if (a[0] == "pool") scen_pool(atoi(a[1].c_str()));
+  else if (a[0] == "locker") scen_locker();
+  else if (a[0] == "prefs") scen_prefs();
+  else if (a[0] == "ssd") { ss_drainer = true; scen_ss(ints(a[1]), ints(a[2]), atoi(a[3].c_str())); }
   else if (a[0] == "execre") scen_execre(ints(a[1]), ints(a[2]));
   else if (a[0] == "ss") scen_ss(ints(a[1]), ints(a[2]), atoi(a[3].c_str()));
   m->st = sch::ST_DONE;
@@ -553,7 +621,8 @@ static std::string handle(const std::string &p) {
   if (!(a[0] == "exec" && a.size() == 3) && !(a[0] == "futraw" && a.size() == 2) &&
       !(a[0] == "futcopy" && a.size() == 3) && !(a[0] == "ss" && a.size() == 5) &&
       !(a[0] == "execre" && a.size() == 4) && !(a[0] == "periodic" && a.size() == 2) &&
-      !(a[0] == "pool" && a.size() == 3))
+      !(a[0] == "pool" && a.size() == 3) && !(a[0] == "locker" && a.size() == 2) &&
+      !(a[0] == "prefs" && a.size() == 2) && !(a[0] == "ssd" && a.size() == 5))
     return "bad-op";
   int fds[2];
   if (pipe(fds)) return "end=pipe-failed";
@@ -582,5 +651,6 @@ static std::string handle(const std::string &p) {
 
 int main(int argc, char **argv) {
   ola::InitLogging(ola::OLA_LOG_NONE, ola::OLA_LOG_NULL);
+  FLAGS_use_epoll = false;      // every SelectServer uses select(), which is wrapped
   return vh::run(argc, argv, handle, 30);
 }
